@@ -9,7 +9,8 @@ Record tree_obs := mkTO {
   to_new : string;
   to_ops : list op;
   to_exp : Z;               (* expiration in whole seconds since the epoch, -1 when not observed *)
-  to_applied : bool         (* the harness's own applier turned [old] into [new] (canonical equality) *)
+  to_applied : bool;        (* the harness's own applier turned [old] into [new] (canonical equality) *)
+  to_served : bool          (* the pair comes from the /patch handler of livesim2 (old = regenerated MPD, new = MPD of now) *)
 }.
 
 Inductive c11case :=
@@ -54,7 +55,9 @@ Definition case_ok (c : c11case) : bool :=
       Bool.eqb (applied (to_ops o) old new) (to_applied o) &&
       (* the premise of theorem C11_checked, evaluated on this pair: where it holds the patch of the
          implementation must apply (by both appliers) *)
-      (negb (premise old new) || (applied (to_ops o) old new && to_applied o))
+      (negb (premise old new) || (applied (to_ops o) old new && to_applied o)) &&
+      (* livesim2's own MPDs are covered by the theorem: a served patch that applies satisfies the premise *)
+      (negb (to_served o) || negb (to_applied o) || premise old new)
     | _ => true
     end
   end.
